@@ -313,6 +313,19 @@ func c06site(pr c06prog) string {
 func c06programs(thorough bool) []c06prog {
 	var out []c06prog
 	add := func(chans int, threads [][]upd, decA, decB string) {
+		// every update of a program proposes a different state (distinct amounts): otherwise a
+		// rejected proposal and a later accepted one are byte-identical and "the rejected state never
+		// becomes current" cannot be judged
+		k := int64(0)
+		cp := make([][]upd, len(threads))
+		for i, th := range threads {
+			for _, u := range th {
+				k++
+				u.Amt = k
+				cp[i] = append(cp[i], u)
+			}
+		}
+		threads = cp
 		p := c06prog{Chans: chans, Threads: threads, DecA: decA, DecB: decB}
 		p.Name = fmt.Sprintf("%dch/%s", chans, c06site(p))
 		out = append(out, p)
